@@ -109,7 +109,7 @@ theorem apply_pred (hP : ValPred P) {o : Op} (ho : PredOp P o) {bs : Bs} {em : L
       · cases h; exact ⟨hb, he⟩
     · cases h; exact ⟨hb, he⟩
   | loop => simp only [Op.apply] at h; cases h
-  | emitBad => simp only [Op.apply] at h; cases h
+  | emitBad k => simp only [Op.apply] at h; cases h
 
 theorem runOps_pred (hP : ValPred P) {ops : List Op} (ho : ∀ o ∈ ops, PredOp P o) {bs : Bs}
     {em : List V} (hb : AllBs P bs) (he : AllMsgs P em) :
